@@ -375,6 +375,11 @@ def part_from_int(r, case):
                     if u.dtype == torch.bool:
                         return bool(u == v)
                     return bool(u == v) or abs(float(u) - float(v)) <= 1e-6 * max(1.0, abs(float(v)))
+                exact_m = float(m) if sem == 'real' else ((math.log(m) if sem == 'log' else 0.0) if m else -inf)     # idempotent: 1+1 = 1
+                tol_m = 0.0 if sem in ('real', 'bool') else (4e-16 if dt == 'float64' else 3e-7) * max(1.0, abs(exact_m))
+                if sem != 'bool' and not (float(a) == exact_m or abs(float(a) - exact_m) <= tol_m):
+                    r.bad('law-violated', 'semirings.' + type(S).__name__, 'from_int', '%s %s: from_int(%d) = %r, the image of %d is %r' % (sem, dt, m, float(a), m, exact_m), case, key)
+                    continue
                 if not same(s1, s2) or not same(p1, p2):
                     r.bad('law-violated', 'semirings.' + type(S).__name__, 'from_int', '%s %s: from_int(%d)+from_int(%d)=%r vs from_int(%d)=%r; product %r vs %r' % (sem, dt, m, n, s1.tolist(), m + n, s2.tolist(), p1.tolist(), p2.tolist()), case, key)
                 else:
@@ -435,6 +440,9 @@ def part_repr(i, r, case, pats=None):
                     variants = [('', a, b, A, B)]
                     if a.ndim == 2:
                         variants += [('row-left ', a[0], b, A[0], B), ('row-right ', a, b[0], A, B[0])]
+                        if A.shape[0] == A.shape[1] and da == db:
+                            # an operand and its own transpose share their physical axes
+                            variants += [('own-transpose ', a, a.T, A, A.T)]
                     for opn, (vn, aa, bb, AA, BB) in itertools.product(('add', 'mul', 'sub'), variants):
                         if opn == 'sub' and db == inf and sem != 'real':
                             continue     # sub is stated for y <= x only; a default of +inf on the right is outside it (math.log1p(-inf))
